@@ -36,14 +36,14 @@ type world struct {
 	fs  headerfs.FilterHeaderStore
 
 	// durable-step interposition
-	step      int    // durable steps taken by the current op
-	faultKind string // "", shortwrite, writeerr, truncerr, syncerr, dberr
-	faultStep int
-	faultArg  int
-	crashStep int // -1 = none
-	crashTorn int
+	step       int    // durable steps taken by the current op
+	faultKind  string // "", shortwrite, writeerr, truncerr, syncerr, dberr
+	faultStep  int
+	faultArg   int
+	crashStep  int // -1 = none
+	crashTorn  int
 	crashAfter bool // the step is carried out, then the process dies (a crash between two durable steps)
-	inOp      bool
+	inOp       bool
 
 	// identities
 	bid  map[chainhash.Hash]int
@@ -768,6 +768,15 @@ func (g *gen) reads() {
 // filter store's genesis tip), then restarted.
 func InitCases(t *tr.W, r *rand.Rand) {
 	for n := 1; n <= 5; n++ {
+		// m > 0: the restart after the first crash is itself killed before its m-th index transaction
+		for m := 0; m <= 4; m++ {
+			initCase(t, r, n, m)
+		}
+	}
+}
+
+func initCase(t *tr.W, r *rand.Rand, n, m int) {
+	{
 		d, err := os.MkdirTemp("", "storeinit")
 		if err != nil {
 			panic(err)
@@ -778,14 +787,14 @@ func InitCases(t *tr.W, r *rand.Rand) {
 		w.bid[g.BlockHash()] = 0
 		w.bhdr = append(w.bhdr, &g)
 		t.Case("store init")
-		obs := func() (obs string) {
+		start := func(k int) (obs string) {
 			db, err := walletdb.Create("bdb", filepath.Join(d, "n.db"), false, 10*time.Second, false)
 			if err != nil {
 				return "err-create"
 			}
 			defer db.Close()
 			fdb := &faultDB{DB: db, w: w}
-			w.inOp, w.step, w.crashStep = true, 0, n-1
+			w.inOp, w.step, w.crashStep = true, 0, k-1
 			defer func() {
 				w.inOp, w.crashStep = false, -1
 				if x := recover(); x != nil {
@@ -807,8 +816,11 @@ func InitCases(t *tr.W, r *rand.Rand) {
 			}
 			headerfs.VerifCloseFile(f)
 			return "ok"
-		}()
-		t.Op(fmt.Sprintf("initcrash %d", n), obs)
+		}
+		t.Op(fmt.Sprintf("initcrash %d", n), start(n))
+		if m > 0 {
+			t.Op(fmt.Sprintf("initagain %d", m), start(m))
+		}
 		err = w.open()
 		t.Op("reopen", errClass(err))
 		if err == nil {
